@@ -711,3 +711,17 @@ package rcmgr
 //@ ensures same6(&s.resourceScope.rc)
 //@ modifies resourceScope.refCnt, resources.memory, resources.nstreamsIn, resources.nstreamsOut, resources.nconnsIn, resources.nconnsOut, resources.nfd,
 //@          resourceScope.done, s.rcmgr.peer, s.peer, s.isAllowlisted, s.resourceScope.edges
+
+// ---------------------------------------------------------------------------
+// C03: a connection scope gives its per-subnet slot back exactly once
+
+//@ func (s *connectionScope) Done
+//@ prop C03
+//@ requires s.resourceScope.owner == nil && allNonneg() && edgesOK(s.resourceScope)
+//@ ensures s.done
+//@ ensures old(s.done) ==> !called(rmConn, 0) && !called(doneUnlocked, 0)
+//@ ensures !old(s.done) ==> called(doneUnlocked, 0) && arg(doneUnlocked, 0, 0) == s.resourceScope
+//@ ensures !old(s.done) && s.ip.IsValid() ==> ncalls(rmConn, 0) == 1 && arg(rmConn, 0, 0) == s.rcmgr.connLimiter
+//@ ensures !s.ip.IsValid() ==> !called(rmConn, 0)
+//@ ensures ncalls(rmConn, 0) <= 1
+//@ noframe
